@@ -679,6 +679,22 @@ func c12Identity(p *P, r *R) {
 				}
 			}
 			if !ok {
+				// fields decoded by a local helper `field, rest := g(bytes)`: the call on the function's own parameter
+				// yields the first field, the call on the rest handed back by that call the second
+				if e, isE := v.(*ssa.Extract); isE {
+					if c, isC := e.Tuple.(*ssa.Call); isC && c.Call.StaticCallee() != nil && len(c.Call.Args) > 0 {
+						arg := stripConv(c.Call.Args[0])
+						if _, isParam := arg.(*ssa.Parameter); isParam {
+							first = i
+						} else if e2, isE2 := arg.(*ssa.Extract); isE2 {
+							if c2, isC2 := e2.Tuple.(*ssa.Call); isC2 && c2.Call.StaticCallee() == c.Call.StaticCallee() {
+								if _, isParam2 := stripConv(c2.Call.Args[0]).(*ssa.Parameter); isParam2 {
+									second = i
+								}
+							}
+						}
+					}
+				}
 				continue
 			}
 			if sl, ok := cv.X.(*ssa.Slice); ok {
